@@ -58,6 +58,19 @@ impl<'a, T: ColumnProvider> ExpressionExecutionEngine<'a, T> {
                 }
 
                 if !left_value.is_null() && !right_value.is_null() {
+                    // Numbers are compared by value, values of different types cannot be compared
+                    match (&left_value, &right_value) {
+                        (Value::Int(left), Value::Float(_)) => { left_value = Value::Float(Float(*left as f64)); }
+                        (Value::Float(_), Value::Int(right)) => { right_value = Value::Float(Float(*right as f64)); }
+                        (left, right) => {
+                            if let (Some(left_type), Some(right_type)) = (left.value_type(), right.value_type()) {
+                                if left_type != right_type {
+                                    return Err(EvaluationError::TypeError(left_type, right_type));
+                                }
+                            }
+                        }
+                    }
+
                     match operator {
                         CompareOperator::Equal => Ok(Value::Bool(left_value == right_value)),
                         CompareOperator::NotEqual => Ok(Value::Bool(left_value != right_value)),
